@@ -47,6 +47,19 @@ def replay(r):
     C.real_tangermeme()
     import torch
     from tangermeme import seqlet as rs
+    if r["kind"] == "numpy_input":
+        g = np.random.RandomState(0)
+        X = g.normal(0, 0.05, size=(2, 60))
+        X[0, 10:16] += 3.0
+        X0 = X.copy()
+        try:
+            df = rs.recursive_seqlets(X, threshold=0.05, min_seqlet_len=4, max_seqlet_len=8)
+        except Exception as e:
+            return True, "recursive_seqlets raised %s: %s" % (type(e).__name__, e)
+        if not np.array_equal(X, X0):
+            return True, "recursive_seqlets modified the numpy attribution array it was given"
+        bad = _check_recursive(X0, df, 4, 8, 0, 0.05)
+        return (bad is not None), (bad or "ok")
     if r["kind"] in ("extract", "pvalue", "wrapper"):
         mn, mx, fl = r["min_len"], r["max_len"], r["flanks"]
         thr = 0.05
@@ -74,6 +87,8 @@ def replay(r):
             X[1, 80 - fl - ws - 1:80 - fl - 1] += 2.0
             X[2, 30:30 + ws] -= 2.0
             X[2, 30 + ws + 2:30 + 2 * ws + 2] += 1.5
+            off = seed % (fl + 2)
+            X[1, 80 - ws - off:80 - off] += 3.0            # a strong window at / next to the very end of the example
             Xt = torch.from_numpy(X.copy())
             try:
                 df = rs.tfmodisco_seqlets(Xt, window_size=ws, flank=fl)
@@ -221,6 +236,28 @@ def worker(cfg):
         out["stats"] = stats.as_dict()
         return out
 
+    if kind == "prefix":
+        l, nrows = cfg["l"], 2
+        blk, info = ld.slice_function("seqlet", "_recursive_seqlets", lambda st, text: isinstance(st, ast.Assign) and text.startswith("X_csum"),
+                                      lambda st, text: isinstance(st, ast.For) and "X_csum[i, j]" in text, ["X", "n", "l"], ["X_csum"])
+        out["functions"].append(info)
+
+        def body(ctx):
+            xs = np.array([[core.Real("x_%d_%d" % (i, t)) for t in range(l)] for i in range(nrows)], dtype=object)
+            X = T.NDArray(xs.copy(), dtype="float64")
+            snap = X.a.copy()
+            (cs,) = blk(X, nrows, l)
+            cl = [cs.a[i, j] == s_sum(list(xs[i, :j + 1])) for i in range(nrows) for j in range(l)]
+            m = ctx.prove(s_and(*cl), "cumulative sums")
+            if m is not None:
+                add("recursive:prefix-sums", "X_csum is not the row-wise prefix sum of the input", dict(cfg, kind="numpy_input", min_len=4, max_len=8, flanks=0))
+            if not C.same_objects(X.a, snap) and ctx.prove(s_and(*[X.a.flat[q] == snap.flat[q] for q in range(snap.size)]), "input unchanged") is not None:
+                add("recursive:modifies-input", "the kernel overwrites the attribution array it is given", dict(cfg, kind="numpy_input", min_len=4, max_len=8, flanks=0))
+            return "returned"
+        core.explore(body, stats=stats)
+        out["stats"] = stats.as_dict()
+        return out
+
     if kind == "wrapper":
         sq = ld.load("seqlet")
         n = cfg["n"]
@@ -308,6 +345,7 @@ def configs(tier):
             cf.append(dict(kind="extract", min_len=mn, max_len=mx, flanks=fl, l=l))
         cf.append(dict(kind="pvalue", min_len=mn, max_len=mx, flanks=0, l=l))
     cf.append(dict(kind="wrapper", n=3))
+    cf.append(dict(kind="prefix", l=4))
     for (ws, fl, L, B) in ([(2, 1, 7, 1), (3, 0, 6, 1), (1, 0, 3, 2), (2, 0, 7, 1)] if q else [(2, 1, 7, 1), (3, 0, 6, 1), (1, 0, 3, 2), (2, 0, 7, 1), (1, 1, 5, 2), (3, 1, 9, 1), (2, 2, 9, 1)]):
         cf.append(dict(kind="tfmodisco", window=ws, flank=fl, L=L, B=B))
     return cf
